@@ -62,6 +62,22 @@ func runFixturesImpl(root string) error {
 	if err := expect("LCK", v, []string{"BadSetUnderRLock", "BadReadAfterUnlock"}, []string{"GoodGet", "GoodSet"}); err != nil {
 		return err
 	}
+	// callbacks of synchronous standard-library higher-order functions run under the caller's locks
+	hofGood, hofBad := true, false
+	for _, o := range fc.Obs {
+		if o.Verdict != "violated" {
+			continue
+		}
+		if strings.Contains(o.Construct, "GoodHOFCallback") || strings.Contains(strings.Join(o.Path, " "), "GoodHOFCallback") {
+			hofGood = false
+		}
+		if strings.Contains(o.Construct, "BadHOFCallbackUnlocked") || strings.Contains(strings.Join(o.Path, " "), "BadHOFCallbackUnlocked") {
+			hofBad = true
+		}
+	}
+	if !hofGood || !hofBad {
+		return fmt.Errorf("LCK engine: callback of a synchronous higher-order function judged wrongly (good silent=%v, bad fires=%v)", hofGood, hofBad)
+	}
 	// the helper summary: bump is violated only because BadHelperWithoutLock reaches it unlocked
 	helperFlagged := false
 	for _, o := range fc.Obs {
